@@ -57,6 +57,8 @@ impl Gen7 {
         })
     }
     fn pick_col(&mut self, rels: &[Rel], want: Option<char>) -> (Ex, char) {
+        // no relation in scope (a SELECT without FROM, a VALUES row): a value of the wanted type
+        if rels.is_empty() { let ty = want.unwrap_or('i'); return (Ex::Val(self.value(ty)), ty); }
         for _ in 0..8 {
             let r = self.rng.pick(rels).clone();
             let (c, t) = self.rng.pick(&r.cols).clone();
@@ -152,6 +154,11 @@ impl Gen7 {
     fn order(&mut self, keys: Vec<(Ex, char)>, total: Option<Ex>) -> Vec<OrderItem> {
         let mut out = Vec::new();
         for (e, ty) in keys {
+            // a fifth of the keys are IFNULL / COALESCE over the key with fallbacks that may themselves be (typed) NULL values
+            let e = if self.rng.chance(1, 5) {
+                let mut fallback = |g: &mut Self| if g.rng.chance(1, 3) { Ex::Val(val(match ty { 'i' => Value::Int(None), 'r' => Value::Double(None), _ => Value::String(None) })) } else { Ex::Val(g.value(ty)) };
+                if self.rng.chance(1, 2) { let f = fallback(self); Ex::Func(Fun::Std(7), false, vec![e, f]) } else { let (f1, f2) = (fallback(self), fallback(self)); Ex::Func(Fun::Std(5), false, vec![e, f1, f2]) }
+            } else { e };
             let kind = if self.rng.chance(1, 6) { let n = 1 + self.rng.below(3) as usize; OrderKind::Field((0..n).map(|_| self.value(ty)).collect()) } else if self.rng.chance(1, 2) { OrderKind::Desc } else { OrderKind::Asc };
             let nulls_first = match self.rng.below(4) { 0 => Some(true), 1 => Some(false), _ => None };
             if matches!(kind, OrderKind::Field(_)) && nulls_first.is_some() { self.field_nulls = true; }
@@ -460,6 +467,43 @@ pub fn run(ctx: &mut Ctx) {
         ctx.count(match &q { Query::Sel(_) => "kind.select", Query::Ins(_) => "kind.insert", Query::Upd(_) => "kind.update", Query::Del(_) => "kind.delete", Query::With(_, _) => "kind.with" });
         writeln!(out, "{}", serde_json::json!({"recipe": recipe, "inline": r.inline, "sql": r.sql, "values": r.values.iter().map(bind_json).collect::<Vec<_>>(), "explicit": xq(&q),
             "class": if g.named_window { Some("C07.named_window_clause") } else { None }})).unwrap();
+    }
+    // ---- conditions built by a history of calls: WHERE must mean the conjunction of everything that was added (engine-decided here, C06 has the theorem)
+    let hn = if ctx.tier_thorough { 4000 } else { 500 };
+    for _ in 0..hn {
+        let mut g = Gen7::new(rng.fork());
+        let t = g.rng.pick(&TABLES).clone();
+        let rel = Rel { alias: t.name.to_string(), cols: t.cols.iter().map(|(c, k)| (c.to_string(), *k)).collect() };
+        let calls = 2 + g.rng.below(3) as usize;
+        let chain = g.rng.chance(1, 3);
+        // each call: an expression (and_where) or a condition tree (cond_where), possibly an empty `any` (FALSE) / `all` (TRUE), possibly negated
+        let mut terms: Vec<(Option<Ex>, Option<Cond>)> = Vec::new();
+        for _ in 0..calls {
+            if chain { terms.push((Some(g.pred(&[rel.clone()], 1, false)), None)); }
+            else {
+                let c = match g.rng.below(6) { 0 => Cond { neg: false, any: true, items: vec![] }, 1 => Cond { neg: g.rng.chance(1, 2), any: false, items: vec![] }, _ => g.cond(&[rel.clone()], 1, false) };
+                terms.push((None, Some(c)));
+            }
+        }
+        let kind = g.rng.below(3);
+        let setcol = t.cols.iter().rev().find(|(c, k)| *k == 'i' && *c != "id").map(|(c, _)| *c).unwrap_or("id");
+        let apply = |w: &mut dyn FnMut(Option<sea_query::SimpleExpr>, Option<sea_query::Condition>)| { for (e, c) in &terms { match (e, c) { (Some(e), _) => w(Some(e.build()), None), (_, Some(c)) => w(None, Some(c.build())), _ => {} } } };
+        let built: Option<(String, String, sea_query::Values)> = catch(|| match kind {
+            0 => { let mut s = sea_query::Query::select(); s.column(sea_query::Alias::new("id")).from(sea_query::Alias::new(t.name)); apply(&mut |e, c| { if let Some(e) = e { s.and_where(e); } if let Some(c) = c { s.cond_where(c); } }); s.order_by(sea_query::Alias::new("id"), sea_query::Order::Asc);
+                   let (sql, v) = s.build(sea_query::SqliteQueryBuilder); (s.to_string(sea_query::SqliteQueryBuilder), sql, v) }
+            1 => { let mut s = sea_query::Query::update(); s.table(sea_query::Alias::new(t.name)).value(sea_query::Alias::new(setcol), 77); apply(&mut |e, c| { if let Some(e) = e { s.and_where(e); } if let Some(c) = c { s.cond_where(c); } });
+                   let (sql, v) = s.build(sea_query::SqliteQueryBuilder); (s.to_string(sea_query::SqliteQueryBuilder), sql, v) }
+            _ => { let mut s = sea_query::Query::delete(); s.from_table(sea_query::Alias::new(t.name)); apply(&mut |e, c| { if let Some(e) = e { s.and_where(e); } if let Some(c) = c { s.cond_where(c); } });
+                   let (sql, v) = s.build(sea_query::SqliteQueryBuilder); (s.to_string(sea_query::SqliteQueryBuilder), sql, v) }
+        });
+        let Some((inline, sql, values)) = built else { ctx.count("history.panic"); continue };
+        let conj = terms.iter().map(|(e, c)| match (e, c) { (Some(e), _) => format!("({})", crate::explicit::ex_sql(B::Sqlite, e)), (_, Some(c)) => crate::explicit::cond_sql(B::Sqlite, c), _ => "(TRUE)".into() }).collect::<Vec<_>>().join(" AND ");
+        let qt = format!("\"{}\"", t.name);
+        let explicit = match kind { 0 => format!("SELECT \"id\" FROM {qt} WHERE {conj} ORDER BY \"id\" ASC"), 1 => format!("UPDATE {qt} SET \"{setcol}\" = 77 WHERE {conj}"), _ => format!("DELETE FROM {qt} WHERE {conj}") };
+        let recipe = format!("history {} {} [{}]", ["select", "update", "delete"][kind as usize], if chain { "and_where" } else { "cond_where" }, terms.iter().map(|(e, c)| match (e, c) { (Some(e), _) => e.sexp(), (_, Some(c)) => c.sexp(), _ => String::new() }).collect::<Vec<_>>().join(" ; "));
+        ctx.eval_only(&recipe, true);
+        ctx.count("kind.history");
+        writeln!(out, "{}", serde_json::json!({"recipe": recipe, "inline": inline, "sql": sql, "values": values.0.iter().map(bind_json).collect::<Vec<_>>(), "explicit": explicit, "class": serde_json::Value::Null})).unwrap();
     }
     out.flush().unwrap();
     ctx.notes.push(format!("engine cases written to {path}"));
